@@ -28,6 +28,7 @@ import (
 	"github.com/rqlite/rqlite/v10/db"
 	"github.com/rqlite/rqlite/v10/internal/rarchive/zstd"
 	"github.com/rqlite/rqlite/v10/snapshot/proto"
+	"github.com/rqlite/rqlite/v10/snapshot/sidecar"
 )
 
 var c10Castagnoli = crc32.MakeTable(crc32.Castagnoli)
@@ -611,7 +612,7 @@ func TestVerifC10(t *testing.T) {
 	c := &c10Ctx{t: t, rep: rep, r: r, root: root, replayCache: map[string][]byte{}}
 
 	var shapes []*c10Shape
-	nFake := vfScale(3, 10)
+	nFake := vfScale(4, 80)
 	for i := 0; i < nFake; i++ {
 		s := &c10Shape{name: fmt.Sprintf("fake-db+%dwal", i%4), db: c10FakeDB(r, r.Intn(30))}
 		for k := 0; k < i%4; k++ {
@@ -791,7 +792,151 @@ func TestVerifC10(t *testing.T) {
 		ihb, _ := marshalSnapshotHeader(ih)
 		c.one(s, c10Frame(ihb), "incremental-header-only", 4, 3, true)
 	}
+	c10StoreToStore(t, c)
 	rep.vfCompareSegments("snapstream", c.segOps, c.segImpl)
+}
+
+// c10WriteSnapDir writes one snapshot directory of a store by hand: data file, CRC sidecar
+// and meta.json, as the sink / the local snapshot path leave them.
+func c10WriteSnapDir(t *testing.T, root string, term, index uint64, ms int, name string, data []byte) string {
+	id := fmt.Sprintf("%d-%d-%d", term, index, 1700000000000+ms)
+	sd := filepath.Join(root, id)
+	if err := os.MkdirAll(sd, 0o755); err != nil {
+		t.Fatal(err)
+	}
+	p := filepath.Join(sd, name)
+	if err := os.WriteFile(p, data, 0o644); err != nil {
+		t.Fatal(err)
+	}
+	if err := sidecar.WriteFile(p+crcSuffix, c10CRC(data)); err != nil {
+		t.Fatal(err)
+	}
+	if err := writeMeta(sd, &raft.SnapshotMeta{ID: id, Index: index, Term: term}); err != nil {
+		t.Fatal(err)
+	}
+	return id
+}
+
+// c10StoreToStore: the whole path of the property. A full snapshot and a chain of incremental
+// snapshots in a source Store (directory names <term>-<index>-<ms> with indexes and terms
+// that cross decimal digit-count boundaries, e.g. 8,9,10,11 / 98..101 / term 9 -> 10), opened
+// with Store.Open, written into another node's Store through its sink, opened there and
+// restored. The stream must be the framing of the chain in (term, index) order and the
+// database at the far end must be the source's.
+func c10StoreToStore(t *testing.T, c *c10Ctx) {
+	rep, r := c.rep, c.r
+	type plan struct{ terms, idxs []uint64 }
+	plans := []plan{
+		{[]uint64{2, 2, 2, 2}, []uint64{8, 9, 10, 11}},
+		{[]uint64{2, 2, 2}, []uint64{98, 99, 100}},
+		{[]uint64{3, 3, 3, 3, 3}, []uint64{997, 998, 999, 1000, 1001}},
+		{[]uint64{9, 9, 10, 10}, []uint64{50, 51, 52, 53}},
+		{[]uint64{1, 1, 1}, []uint64{100, 200, 300}},
+		{[]uint64{7, 7}, []uint64{9, 10}},
+	}
+	if vfThorough() {
+		for k := 0; k < 20; k++ {
+			n := 2 + r.Intn(5)
+			base := uint64([]int{7, 8, 9, 97, 98, 99, 996, 9998, 5, 120}[r.Intn(10)])
+			var pl plan
+			term := uint64(1 + r.Intn(12))
+			for j := 0; j < n; j++ {
+				if r.Chance(15) {
+					term++
+				}
+				pl.terms = append(pl.terms, term)
+				pl.idxs = append(pl.idxs, base+uint64(j)*uint64(1+r.Intn(2)))
+			}
+			for j := 1; j < n; j++ {
+				if pl.idxs[j] <= pl.idxs[j-1] {
+					pl.idxs[j] = pl.idxs[j-1] + 1
+				}
+			}
+			plans = append(plans, pl)
+		}
+	}
+	for pi, pl := range plans {
+		nw := len(pl.idxs) - 1
+		dbb, wals := c10RealFiles(t, r, c.root, nw)
+		want, err := c10Replay(c.root, dbb, wals)
+		if err != nil {
+			t.Fatalf("replay of generated files: %v", err)
+		}
+		src, _ := os.MkdirTemp(c.root, "src-store")
+		dst, _ := os.MkdirTemp(c.root, "dst-store")
+		c10WriteSnapDir(t, src, pl.terms[0], pl.idxs[0], 0, dbfileName, dbb)
+		newest := ""
+		for i, w := range wals {
+			newest = c10WriteSnapDir(t, src, pl.terms[i+1], pl.idxs[i+1], i+1, "00000001.wal", w)
+		}
+		info := map[string]interface{}{"terms": pl.terms, "indexes": pl.idxs, "wals": nw}
+		rep.Count("store-to-store-chains")
+		rep.Case(fmt.Sprintf("s2s|%d|%v|%v", pi, pl.terms, pl.idxs), true)
+		ss, err := NewStore(src)
+		if err != nil {
+			t.Fatal(err)
+		}
+		ss.fatalFn = nil
+		meta, rc, err := ss.Open(newest)
+		if err != nil {
+			rep.Fail("store-open-fails-on-intact-chain", err.Error(), info)
+			ss.Close()
+			continue
+		}
+		strm, _ := io.ReadAll(rc)
+		rc.Close()
+		ss.Close()
+		// the stream is the framing of the chain in catalog order
+		shape := &c10Shape{name: fmt.Sprintf("store-chain-%d", pi), db: dbb, wals: wals, real: true, replayed: want}
+		shape.finish(t)
+		if !bytes.Equal(strm, shape.strm) || meta.Size != int64(len(strm)) {
+			rep.Fail("store-stream-differs-from-framing-of-chain",
+				fmt.Sprintf("snapshot dirs terms=%v indexes=%v: Store.Open streams %d bytes; framing the database and the WALs in (term,index) order gives %d bytes; equal=%v", pl.terms, pl.idxs, len(strm), len(shape.strm), bytes.Equal(strm, shape.strm)), info)
+		}
+		// model + both receivers on the stream the store really produced
+		c.one(shape, strm, "none", len(strm), 3, true)
+		// into the other node's store, through its sink, and back out
+		ds, err := NewStore(dst)
+		if err != nil {
+			t.Fatal(err)
+		}
+		ds.fatalFn = nil
+		sink, err := ds.Create(1, meta.Index, meta.Term, raft.Configuration{}, 1, nil)
+		if err != nil {
+			t.Fatal(err)
+		}
+		if _, err := io.Copy(sink, bytes.NewReader(strm)); err != nil {
+			sink.Cancel()
+			rep.Fail("store-to-store-install-fails", err.Error(), info)
+			ds.Close()
+			continue
+		}
+		if err := sink.Close(); err != nil {
+			rep.Fail("store-to-store-install-fails", err.Error(), info)
+			ds.Close()
+			continue
+		}
+		_, rc2, err := ds.Open(sink.ID())
+		if err != nil {
+			rep.Fail("store-to-store-installed-snapshot-does-not-open", err.Error(), info)
+			ds.Close()
+			continue
+		}
+		out := filepath.Join(c.root, fmt.Sprintf("s2s-%d.db", pi))
+		_, err = Restore(rc2, out)
+		rc2.Close()
+		got, _ := os.ReadFile(out)
+		os.Remove(out)
+		ds.Close()
+		if err != nil {
+			rep.Fail("store-to-store-restore-fails", err.Error(), info)
+		} else if !bytes.Equal(got, want) {
+			rep.Fail("store-to-store-database-differs-from-source",
+				fmt.Sprintf("snapshot dirs terms=%v indexes=%v: the database restored from the receiving store differs from the source's (full + %d WALs replayed in order)", pl.terms, pl.idxs, nw), info)
+		}
+		os.RemoveAll(src)
+		os.RemoveAll(dst)
+	}
 }
 
 type c10OneByte struct {
